@@ -1150,106 +1150,103 @@ open OpClass Site in
 /-- `(key, occurrences in the function, class)` for every open partial operation of the current source, sorted by
 key as the extractor emits them.  `Props.C14.every_open_op_accounted`: the generated `(key, n)` list is exactly this one. -/
 def openOps : List (String × Nat × OpClass) := [
-  ("chain/chainhandle.go:adjustRv:slice:<string>[:maxRetSize-4]", 1, bounded "len(ret) > maxRetSize is tested on the line above"),
-  ("chain/debugger.go:Debugger.Check:index:stopConds[<StopCond>]", 2, offPath "debugger conditions (method names Check/String)"),
-  ("chain/debugger.go:StopCond.String:index:stopConds[<StopCond>]", 1, offPath "debugger conditions (method names Check/String)"),
+  ("chain/chainhandle.go:executeTx:slice:_[:maxRetSize-4]", 1, bounded "adjustRv: len(ret) > maxRetSize is tested on the line above"),
+  ("chain/debugger.go:Debugger.Check:index:stopConds[_]", 2, offPath "debugger conditions (method names Check/String)"),
+  ("chain/debugger.go:StopCond.String:index:stopConds[_]", 1, offPath "debugger conditions (method names Check/String)"),
   ("consensus/impl/raftv2/blockfactory.go:GetName:index:consensus.ConsensusName[consensus.ConsensusRAFT]", 1, lib "static table indexed by a constant"),
-  ("consensus/impl/raftv2/raftlogger.go:defaultArgsFormat:slice:f[:len(f)-1]", 1, offPath "raft log formatting"),
-  ("consensus/impl/raftv2/raftserver.go:raftServer.GetClusterProgress:mapwrite:<ClusterProgress>.MemberProgresses[id]", 1, ctor "the map is created by the constructor of its struct / by make in the package initialiser (newVoteResult, newVprStore, newTopVoters, newVpr, systemParams literal, initSysCmd)"),
-  ("consensus/raftCommon.go:Member.CalculateMemberID:slice:hash[:8]", 1, lib "sha1.Sum-style fixed-size digest"),
-  ("contract/enterprise/admin.go:getAdmins:slice:data[i : i+types.AddressLength]", 1, trap [gAdmins]),
-  ("contract/enterprise/changecluster.go:CcArgument.get:index:<CcArgument>[<string>]", 1, lib "CcArgument is a named map type: a map read"),
-  ("contract/enterprise/config.go:Conf.RemoveValue:slice:<*Conf>.Values[:i]", 1, bounded "i is the range index of c.Values"),
-  ("contract/enterprise/config.go:Conf.RemoveValue:slice:<*Conf>.Values[i+1:]", 1, bounded "i is the range index of c.Values"),
-  ("contract/enterprise/config.go:Conf.Validate:index:strings.Split(v, \":\")[1]", 1, trap [cRpcSplit]),
-  ("contract/enterprise/config.go:deserializeConf:index:<[]byte>[0]", 1, trap [cDeser0]),
-  ("contract/enterprise/config.go:deserializeConf:slice:strings.Split(string(<[]byte>), \"\\\\\")[1:]", 1, lib "strings.Split returns at least one element"),
-  ("contract/enterprise/execute.go:ExecuteEnterpriseTx:index:context.ArgsAny[0]", 1, trap [xAny0]),
-  ("contract/enterprise/execute.go:ExecuteEnterpriseTx:index:context.Args[0]", 6, trap [xCtx0]),
-  ("contract/enterprise/execute.go:ExecuteEnterpriseTx:index:context.Call.Args[1]", 1, trap [xEnable1]),
-  ("contract/enterprise/execute.go:ExecuteEnterpriseTx:slice:context.Admins[:i]", 1, bounded "i is the range index of context.Admins"),
-  ("contract/enterprise/execute.go:ExecuteEnterpriseTx:slice:context.Admins[i+1:]", 1, bounded "i is the range index of context.Admins"),
-  ("contract/enterprise/validate.go:ValidateEnterpriseTx:assert:<types.CallInfo>.Args[0].(string)", 1, trap [eEnable0]),
-  ("contract/enterprise/validate.go:ValidateEnterpriseTx:index:<*EnterpriseContext>.Args[0]", 4, trap [eCtx0]),
-  ("contract/enterprise/validate.go:ValidateEnterpriseTx:index:<*EnterpriseContext>.Args[1]", 4, trap [eCtx1]),
-  ("contract/enterprise/validate.go:ValidateEnterpriseTx:slice:<*EnterpriseContext>.Args[1:]", 1, trap [eCtxTail]),
-  ("contract/enterprise/validate.go:checkArgs:index:<*types.CallInfo>.Args[0]", 2, trap [eCheckArgs0]),
-  ("contract/name/execute.go:ExecuteNameTx:assert:ci.Args[0].(string)", 3, trap [nExCreate0, nExUpd0, nExOwner0]),
-  ("contract/name/execute.go:ExecuteNameTx:assert:ci.Args[1].(string)", 1, trap [nExUpd1]),
-  ("contract/name/execute.go:ExecuteNameTx:index:ci.Args[0]", 3, trap [nExCreate0, nExUpd0, nExOwner0]),
-  ("contract/name/execute.go:ExecuteNameTx:index:ci.Args[1]", 1, trap [nExUpd1]),
-  ("contract/name/execute.go:ValidateNameTx:assert:<types.CallInfo>.Args[0].(string)", 1, trap [nVal0]),
-  ("contract/name/execute.go:ValidateNameTx:index:<types.CallInfo>.Args[0]", 1, trap [nVal0]),
-  ("contract/name/name.go:deserializeNameMap:index:<[]byte>[0]", 1, stored "written by serializeNameMap (version 1, two length-prefixed fields); absent key = nil; read for every name sender/recipient the harness resolves"),
-  ("contract/name/name.go:deserializeNameMap:panic:panic(\"could not deserializeOwner, not supported version\")", 1, stored "written by serializeNameMap (version 1, two length-prefixed fields); absent key = nil; read for every name sender/recipient the harness resolves"),
-  ("contract/name/name.go:deserializeNameMap:slice:<[]byte>[offset:next]", 4, stored "written by serializeNameMap (version 1, two length-prefixed fields); absent key = nil; read for every name sender/recipient the harness resolves"),
-  ("contract/system/param.go:parameters.setNextBlockParam:mapwrite:<*parameters>.params[nextBlockParamKey(<string>)]", 1, ctor "the map is created by the constructor of its struct / by make in the package initialiser (newVoteResult, newVprStore, newTopVoters, newVpr, systemParams literal, initSysCmd)"),
-  ("contract/system/staking.go:deserializeStaking:slice:<[]byte>[8:]", 1, stored "written by serializeStaking; read by every system transaction the harness executes"),
-  ("contract/system/staking.go:deserializeStaking:slice:<[]byte>[:8]", 1, stored "written by serializeStaking; read by every system transaction the harness executes"),
-  ("contract/system/validation.go:ValidateSystemTx:index:proposal.Candidates[<int>]", 3, bounded "indices supplied by sort.Slice / guarded by i < len; the four system proposals have no candidate list"),
-  ("contract/system/validation.go:ValidateSystemTx:slice:<types.CallInfo>.Args[1:]", 1, trap [sCandSlice]),
-  ("contract/system/validation.go:parseIDForProposal:index:<*types.CallInfo>.Args[0]", 1, trap [sParseId0]),
-  ("contract/system/vote.go:deserializeVote:panic:panic(\"voting data corruption\")", 1, stored "written by serializeVote/serializeVoteEx/serializeVoteList of the same file; read by every vote/unstake the harness executes"),
-  ("contract/system/vote.go:deserializeVote:slice:<[]byte>[:len(<[]byte>)-pos]", 1, stored "written by serializeVote/serializeVoteEx/serializeVoteList of the same file; read by every vote/unstake the harness executes"),
-  ("contract/system/vote.go:deserializeVote:slice:<[]byte>[len(<[]byte>)-pos:]", 1, stored "written by serializeVote/serializeVoteEx/serializeVoteList of the same file; read by every vote/unstake the harness executes"),
-  ("contract/system/vote.go:deserializeVoteEx:slice:<[]byte>[8 : 8+size]", 1, stored "written by serializeVote/serializeVoteEx/serializeVoteList of the same file; read by every vote/unstake the harness executes"),
-  ("contract/system/vote.go:deserializeVoteEx:slice:<[]byte>[8+size:]", 1, stored "written by serializeVote/serializeVoteEx/serializeVoteList of the same file; read by every vote/unstake the harness executes"),
-  ("contract/system/vote.go:deserializeVoteEx:slice:<[]byte>[:8]", 1, stored "written by serializeVote/serializeVoteEx/serializeVoteList of the same file; read by every vote/unstake the harness executes"),
-  ("contract/system/vote.go:deserializeVoteList:slice:<[]byte>[offset : offset+8]", 1, stored "written by serializeVote/serializeVoteEx/serializeVoteList of the same file; read by every vote/unstake the harness executes"),
-  ("contract/system/vote.go:deserializeVoteList:slice:<[]byte>[offset+8 : <int>]", 1, stored "written by serializeVote/serializeVoteEx/serializeVoteList of the same file; read by every vote/unstake the harness executes"),
-  ("contract/system/vote.go:newVoteCmd:assert:<*SystemContext>.Call.Args[0].(string)", 1, trap [vDaoId]),
-  ("contract/system/vote.go:newVoteCmd:assert:<*SystemContext>.Call.Args[1].(string)", 1, trap [vDaoVal]),
-  ("contract/system/vote.go:newVoteCmd:assert:v.(string)", 1, trap [vBpCand]),
-  ("contract/system/vote.go:newVoteCmd:index:<*SystemContext>.Call.Args[0]", 1, trap [vDaoId]),
-  ("contract/system/vote.go:newVoteCmd:index:<*SystemContext>.Call.Args[1]", 1, trap [vDaoVal]),
-  ("contract/system/vote.go:newVoteCmd:slice:<*SystemContext>.Call.Args[1:]", 1, trap [vDaoSlice]),
-  ("contract/system/voteresult.go:VoteResult.AddVote:mapwrite:<*VoteResult>.rmap[base58.Encode(key)]", 2, ctor "the map is created by the constructor of its struct / by make in the package initialiser (newVoteResult, newVprStore, newTopVoters, newVpr, systemParams literal, initSysCmd)"),
-  ("contract/system/voteresult.go:VoteResult.AddVote:mapwrite:<*VoteResult>.rmap[v]", 2, ctor "the map is created by the constructor of its struct / by make in the package initialiser (newVoteResult, newVprStore, newTopVoters, newVpr, systemParams literal, initSysCmd)"),
-  ("contract/system/voteresult.go:VoteResult.AddVote:slice:<*types.Vote>.Candidate[offset : offset+PeerIDLength]", 1, trap [rAddSlice]),
-  ("contract/system/voteresult.go:VoteResult.SubVote:mapwrite:<*VoteResult>.rmap[pkey]", 1, ctor "the map is created by the constructor of its struct / by make in the package initialiser (newVoteResult, newVprStore, newTopVoters, newVpr, systemParams literal, initSysCmd)"),
-  ("contract/system/voteresult.go:VoteResult.SubVote:mapwrite:<*VoteResult>.rmap[v]", 1, ctor "the map is created by the constructor of its struct / by make in the package initialiser (newVoteResult, newVprStore, newTopVoters, newVpr, systemParams literal, initSysCmd)"),
-  ("contract/system/voteresult.go:VoteResult.SubVote:nilarg:<*VoteResult>.rmap[pkey]", 1, trap [rSubNil]),
-  ("contract/system/voteresult.go:VoteResult.SubVote:nilarg:<*VoteResult>.rmap[v]", 1, trap [rSubNil]),
-  ("contract/system/voteresult.go:VoteResult.SubVote:slice:<*types.Vote>.Candidate[offset : offset+PeerIDLength]", 1, stored "old BP vote record = whole 39-byte ids: invariant OldVotesOk (hypothesis of the execution theorems; broken only through the known finding rAddSlice)"),
-  ("contract/system/voteresult.go:VoteResult.Sync:index:resultList.Votes[0]", 2, trap [rSyncTop]),
-  ("contract/system/voteresult.go:VoteResult.threshold:div:new(big.Int).Div(total, unit)", 1, trap [rThreshDiv]),
+  ("consensus/impl/raftv2/raftlogger.go:defaultArgsFormat:slice:_[:len(_)-1]", 1, offPath "raft log formatting"),
+  ("consensus/impl/raftv2/raftserver.go:raftServer.GetClusterProgress:mapwrite:_.MemberProgresses[_]", 1, ctor "the map is created by the constructor of its struct / by make in the package initialiser (newVoteResult, newVprStore, newTopVoters, newVpr, systemParams literal, initSysCmd)"),
+  ("consensus/raftCommon.go:Member.CalculateMemberID:slice:_[:8]", 1, lib "sha1.Sum-style fixed-size digest"),
+  ("contract/enterprise/changecluster.go:CcArgument.get:index:_[_]", 1, lib "CcArgument is a named map type: a map read"),
+  ("contract/enterprise/config.go:Conf.RemoveValue:slice:_.Values[:_]", 1, bounded "i is the range index of c.Values"),
+  ("contract/enterprise/config.go:Conf.RemoveValue:slice:_.Values[_+1:]", 1, bounded "i is the range index of c.Values"),
+  ("contract/enterprise/config.go:Conf.Validate:index:strings.Split(_, \":\")[1]", 1, trap [cRpcSplit]),
+  ("contract/enterprise/config.go:getConf:index:_[0]", 1, trap [cDeser0]),
+  ("contract/enterprise/config.go:getConf:slice:strings.Split(string(_), \"\\\\\")[1:]", 1, lib "strings.Split returns at least one element"),
+  ("contract/enterprise/execute.go:ExecuteEnterpriseTx:index:_.ArgsAny[0]", 1, trap [xAny0]),
+  ("contract/enterprise/execute.go:ExecuteEnterpriseTx:index:_.Args[0]", 6, trap [xCtx0]),
+  ("contract/enterprise/execute.go:ExecuteEnterpriseTx:index:_.Call.Args[1]", 1, trap [xEnable1]),
+  ("contract/enterprise/execute.go:ExecuteEnterpriseTx:slice:_.Admins[:_]", 1, bounded "i is the range index of context.Admins"),
+  ("contract/enterprise/execute.go:ExecuteEnterpriseTx:slice:_.Admins[_+1:]", 1, bounded "i is the range index of context.Admins"),
+  ("contract/enterprise/validate.go:ValidateEnterpriseTx:assert:_.Args[0].(string)", 1, trap [eEnable0]),
+  ("contract/enterprise/validate.go:ValidateEnterpriseTx:index:_.Args[0]", 6, trap [eCtx0, eCheckArgs0]),
+  ("contract/enterprise/validate.go:ValidateEnterpriseTx:index:_.Args[1]", 4, trap [eCtx1]),
+  ("contract/enterprise/validate.go:ValidateEnterpriseTx:slice:_.Args[1:]", 1, trap [eCtxTail]),
+  ("contract/enterprise/validate.go:ValidateEnterpriseTx:slice:_[_ : _+types.AddressLength]", 1, trap [gAdmins]),
+  ("contract/name/execute.go:ExecuteNameTx:assert:_.Args[0].(string)", 3, trap [nExCreate0, nExUpd0, nExOwner0]),
+  ("contract/name/execute.go:ExecuteNameTx:assert:_.Args[1].(string)", 1, trap [nExUpd1]),
+  ("contract/name/execute.go:ExecuteNameTx:index:_.Args[0]", 3, trap [nExCreate0, nExUpd0, nExOwner0]),
+  ("contract/name/execute.go:ExecuteNameTx:index:_.Args[1]", 1, trap [nExUpd1]),
+  ("contract/name/execute.go:ValidateNameTx:assert:_.Args[0].(string)", 1, trap [nVal0]),
+  ("contract/name/execute.go:ValidateNameTx:index:_.Args[0]", 1, trap [nVal0]),
+  ("contract/name/name.go:getNameMap:index:_[0]", 1, stored "deserializeNameMap: written by serializeNameMap (version 1, two length-prefixed fields); absent key = nil; read for every name sender/recipient the harness resolves"),
+  ("contract/name/name.go:getNameMap:panic:panic(\"could not deserializeOwner, not supported version\")", 1, storageErr),
+  ("contract/name/name.go:getNameMap:slice:_[_:_]", 4, stored "deserializeNameMap: written by serializeNameMap (version 1, two length-prefixed fields); absent key = nil; read for every name sender/recipient the harness resolves"),
+  ("contract/system/execute.go:ExecuteSystemTx:assert:_.(string)", 1, trap [vBpCand]),
+  ("contract/system/execute.go:ExecuteSystemTx:assert:_.Call.Args[0].(string)", 1, trap [vDaoId]),
+  ("contract/system/execute.go:ExecuteSystemTx:assert:_.Call.Args[1].(string)", 1, trap [vDaoVal]),
+  ("contract/system/execute.go:ExecuteSystemTx:index:_.Call.Args[0]", 1, trap [vDaoId]),
+  ("contract/system/execute.go:ExecuteSystemTx:index:_.Call.Args[1]", 1, trap [vDaoVal]),
+  ("contract/system/execute.go:ExecuteSystemTx:slice:_.Call.Args[1:]", 1, trap [vDaoSlice]),
+  ("contract/system/param.go:parameters.setNextBlockParam:mapwrite:_.params[nextBlockParamKey(_)]", 1, ctor "the map is created by the constructor of its struct / by make in the package initialiser (newVoteResult, newVprStore, newTopVoters, newVpr, systemParams literal, initSysCmd)"),
+  ("contract/system/staking.go:getStaking:slice:_[8:]", 1, stored "deserializeStaking: written by serializeStaking; read by every system transaction the harness executes"),
+  ("contract/system/staking.go:getStaking:slice:_[:8]", 1, stored "deserializeStaking: written by serializeStaking; read by every system transaction the harness executes"),
+  ("contract/system/validation.go:ValidateSystemTx:index:_.Args[0]", 1, trap [sParseId0]),
+  ("contract/system/validation.go:ValidateSystemTx:index:_.Candidates[_]", 3, bounded "indices supplied by sort.Slice / guarded by i < len; the four system proposals have no candidate list"),
+  ("contract/system/validation.go:ValidateSystemTx:slice:_.Args[1:]", 1, trap [sCandSlice]),
+  ("contract/system/vote.go:deserializeVote:panic:panic(\"voting data corruption\")", 1, stored "written by serializeVote/serializeVoteEx/serializeVoteList; read by every vote/unstake the harness executes"),
+  ("contract/system/vote.go:deserializeVote:slice:_[:len(_)-_]", 1, stored "written by serializeVote/serializeVoteEx/serializeVoteList; read by every vote/unstake the harness executes"),
+  ("contract/system/vote.go:deserializeVote:slice:_[len(_)-_:]", 1, stored "written by serializeVote/serializeVoteEx/serializeVoteList; read by every vote/unstake the harness executes"),
+  ("contract/system/vote.go:deserializeVoteEx:slice:_[8 : 8+_]", 1, stored "written by serializeVote/serializeVoteEx/serializeVoteList; read by every vote/unstake the harness executes"),
+  ("contract/system/vote.go:deserializeVoteEx:slice:_[8+_:]", 1, stored "written by serializeVote/serializeVoteEx/serializeVoteList; read by every vote/unstake the harness executes"),
+  ("contract/system/vote.go:deserializeVoteEx:slice:_[:8]", 1, stored "written by serializeVote/serializeVoteEx/serializeVoteList; read by every vote/unstake the harness executes"),
+  ("contract/system/voteresult.go:VoteResult.AddVote:mapwrite:_.rmap[_]", 2, ctor "the map is created by the constructor of its struct / by make in the package initialiser (newVoteResult, newVprStore, newTopVoters, newVpr, systemParams literal, initSysCmd)"),
+  ("contract/system/voteresult.go:VoteResult.AddVote:mapwrite:_.rmap[base58.Encode(_)]", 2, ctor "the map is created by the constructor of its struct / by make in the package initialiser (newVoteResult, newVprStore, newTopVoters, newVpr, systemParams literal, initSysCmd)"),
+  ("contract/system/voteresult.go:VoteResult.AddVote:slice:_.Candidate[_ : _+PeerIDLength]", 1, trap [rAddSlice]),
+  ("contract/system/voteresult.go:VoteResult.SubVote:mapwrite:_.rmap[_]", 2, ctor "the map is created by the constructor of its struct / by make in the package initialiser (newVoteResult, newVprStore, newTopVoters, newVpr, systemParams literal, initSysCmd)"),
+  ("contract/system/voteresult.go:VoteResult.SubVote:nilarg:_.rmap[_]", 2, trap [rSubNil]),
+  ("contract/system/voteresult.go:VoteResult.SubVote:slice:_.Candidate[_ : _+PeerIDLength]", 1, stored "old BP vote record = whole 39-byte ids: invariant OldVotesOk (hypothesis of the execution theorems; broken only through the known finding rAddSlice)"),
+  ("contract/system/voteresult.go:VoteResult.Sync:index:_.Votes[0]", 2, trap [rSyncTop]),
+  ("contract/system/voteresult.go:VoteResult.threshold:div:new(big.Int).Div(_, _)", 1, trap [rThreshDiv]),
   ("contract/system/voteresult.go:VoteResult.threshold:panic:panic(\"failed to get staking total when calculate bp count\")", 1, storageErr),
-  ("contract/system/voteresult.go:loadVoteResult:mapwrite:voteResult.rmap[base58.Encode(v.Candidate)]", 1, ctor "the map is created by the constructor of its struct / by make in the package initialiser (newVoteResult, newVprStore, newTopVoters, newVpr, systemParams literal, initSysCmd)"),
-  ("contract/system/voteresult.go:loadVoteResult:mapwrite:voteResult.rmap[string(v.Candidate)]", 1, ctor "the map is created by the constructor of its struct / by make in the package initialiser (newVoteResult, newVprStore, newTopVoters, newVpr, systemParams literal, initSysCmd)"),
-  ("contract/system/vprt.go:getBucketIdx:index:<types.AccountID>[0]", 1, lib "types.AccountID is a [32]byte array"),
-  ("contract/system/vprt.go:remove:assert:<*list.List>.Remove(e).(*votingPower)", 1, bounded "only *votingPower values are put into the bucket lists and the rank tree (vprStore.update/addTail, topVoters.update)"),
-  ("contract/system/vprt.go:toVotingPower:assert:<*list.Element>.Value.(*votingPower)", 1, bounded "only *votingPower values are put into the bucket lists and the rank tree (vprStore.update/addTail, topVoters.update)"),
-  ("contract/system/vprt.go:topVoters.lowest:assert:lowest.Value.(*votingPower)", 1, bounded "only *votingPower values are put into the bucket lists and the rank tree (vprStore.update/addTail, topVoters.update)"),
-  ("contract/system/vprt.go:topVoters.set:mapwrite:<*topVoters>.powers[<types.AccountID>]", 1, ctor "the map is created by the constructor of its struct / by make in the package initialiser (newVoteResult, newVprStore, newTopVoters, newVpr, systemParams literal, initSysCmd)"),
-  ("contract/system/vprt.go:vpr.prepare:mapwrite:<*vpr>.changes[<types.AccountID>]", 1, ctor "the map is created by the constructor of its struct / by make in the package initialiser (newVoteResult, newVprStore, newTopVoters, newVpr, systemParams literal, initSysCmd)"),
-  ("contract/system/vprt.go:vprStore.update:mapwrite:<*vprStore>.buckets[<uint8>]", 1, ctor "the map is created by the constructor of its struct / by make in the package initialiser (newVoteResult, newVprStore, newTopVoters, newVpr, systemParams literal, initSysCmd)"),
-  ("fee/gas.go:CalcGas:div:new(big.Int).Div(<*big.Int>, <*big.Int>)", 1, trap [fCalcGas]),
-  ("mempool/mempool.go:MemPool.validateTx:assert:rsp.(message.CheckFeeDelegationRsp)", 1, trap [pFdRsp]),
-  ("mempool/stub.go:getBalanceByAccMock:mapwrite:balance[<string>]", 1, ctor "the map is created by the constructor of its struct / by make in the package initialiser (newVoteResult, newVprStore, newTopVoters, newVpr, systemParams literal, initSysCmd)"),
-  ("mempool/stub.go:getNonceByAccMock:mapwrite:nonce[<string>]", 1, ctor "the map is created by the constructor of its struct / by make in the package initialiser (newVoteResult, newVprStore, newTopVoters, newVpr, systemParams literal, initSysCmd)"),
-  ("mempool/whitelist.go:whitelistConf.Check:index:<*whitelistConf>.whitelist[<string>]", 1, lib "whitelist is a map field: a map read"),
-  ("state/block.go:BlockState.AddReceipt:slice:binary[24:]", 1, lib "bloom GobEncode output starts with a 24-byte header"),
-  ("types/account.go:DecodeAddressBytes:index:<[]byte>[0]", 1, lib "base58check.Decode returns at least the version byte or an error (checked in the library source)"),
-  ("types/account.go:DecodeAddressBytes:slice:<[]byte>[1:]", 1, lib "base58check.Decode returns at least the version byte or an error (checked in the library source)"),
-  ("types/blockchain.go:AvgTime.Get:assert:aopv.(time.Duration)", 1, offPath "block producer signing-time statistics (reached only through the method-name over-approximation Get/Add)"),
+  ("contract/system/voteresult.go:loadVoteResult:mapwrite:_.rmap[base58.Encode(_.Candidate)]", 1, ctor "the map is created by the constructor of its struct / by make in the package initialiser (newVoteResult, newVprStore, newTopVoters, newVpr, systemParams literal, initSysCmd)"),
+  ("contract/system/voteresult.go:loadVoteResult:mapwrite:_.rmap[string(_.Candidate)]", 1, ctor "the map is created by the constructor of its struct / by make in the package initialiser (newVoteResult, newVprStore, newTopVoters, newVpr, systemParams literal, initSysCmd)"),
+  ("contract/system/voteresult.go:loadVoteResult:slice:_[_ : _+8]", 1, stored "written by serializeVote/serializeVoteEx/serializeVoteList; read by every vote/unstake the harness executes"),
+  ("contract/system/voteresult.go:loadVoteResult:slice:_[_+8 : _]", 1, stored "written by serializeVote/serializeVoteEx/serializeVoteList; read by every vote/unstake the harness executes"),
+  ("contract/system/vprt.go:toVotingPower:assert:_.Value.(*votingPower)", 1, bounded "only *votingPower values are put into the bucket lists and the rank tree (vprStore.update/addTail, topVoters.update)"),
+  ("contract/system/vprt.go:topVoters.lowest:assert:_.Value.(*votingPower)", 1, bounded "only *votingPower values are put into the bucket lists and the rank tree (vprStore.update/addTail, topVoters.update)"),
+  ("contract/system/vprt.go:topVoters.set:mapwrite:_.powers[_]", 1, ctor "the map is created by the constructor of its struct / by make in the package initialiser (newVoteResult, newVprStore, newTopVoters, newVpr, systemParams literal, initSysCmd)"),
+  ("contract/system/vprt.go:vpr.prepare:mapwrite:_.changes[_]", 1, ctor "the map is created by the constructor of its struct / by make in the package initialiser (newVoteResult, newVprStore, newTopVoters, newVpr, systemParams literal, initSysCmd)"),
+  ("contract/system/vprt.go:vprStore.update:assert:_.Remove(_).(*votingPower)", 1, bounded "only *votingPower values are put into the bucket lists and the rank tree (vprStore.update/addTail, topVoters.update)"),
+  ("contract/system/vprt.go:vprStore.update:index:_[0]", 1, lib "getBucketIdx: types.AccountID is a [32]byte array"),
+  ("contract/system/vprt.go:vprStore.update:mapwrite:_.buckets[_]", 1, ctor "the map is created by the constructor of its struct / by make in the package initialiser (newVoteResult, newVprStore, newTopVoters, newVpr, systemParams literal, initSysCmd)"),
+  ("fee/gas.go:CalcGas:div:new(big.Int).Div(_, _)", 1, trap [fCalcGas]),
+  ("mempool/mempool.go:MemPool.getAccountState:mapwrite:balance[_]", 1, offPath "mp.testConfig is set only by the pool unit tests"),
+  ("mempool/mempool.go:MemPool.getAccountState:mapwrite:nonce[_]", 1, offPath "mp.testConfig is set only by the pool unit tests"),
+  ("mempool/mempool.go:MemPool.validateTx:assert:_.(message.CheckFeeDelegationRsp)", 1, trap [pFdRsp]),
+  ("mempool/whitelist.go:whitelistConf.Check:index:_.whitelist[_]", 1, lib "whitelist is a map field: a map read"),
+  ("state/block.go:BlockState.AddReceipt:slice:_[24:]", 1, lib "bloom GobEncode output starts with a 24-byte header"),
+  ("types/account.go:DecodeAddressBytes:index:_[0]", 1, lib "base58check.Decode returns at least the version byte or an error (checked in the library source)"),
+  ("types/account.go:DecodeAddressBytes:slice:_[1:]", 1, lib "base58check.Decode returns at least the version byte or an error (checked in the library source)"),
+  ("types/blockchain.go:AvgTime.Get:assert:_.(time.Duration)", 1, offPath "block producer signing-time statistics (reached only through the method-name over-approximation Get/Add)"),
   ("types/blockchain.go:AvgTime.Get:panic:panic(\"AvgTxSignTime is not set\")", 1, offPath "block producer signing-time statistics (reached only through the method-name over-approximation Get/Add)"),
-  ("types/blockchain.go:MovingAverage.Add:div:(<*MovingAverage>.curPos + 1) % <*MovingAverage>.size", 1, offPath "block producer signing-time statistics (reached only through the method-name over-approximation Get/Add)"),
-  ("types/blockchain.go:MovingAverage.Add:index:<*MovingAverage>.values[<*MovingAverage>.curPos]", 2, offPath "block producer signing-time statistics (reached only through the method-name over-approximation Get/Add)"),
-  ("types/blockchain.go:MovingAverage.calculateAvg:div:<*MovingAverage>.sum / int64(<*MovingAverage>.count)", 1, offPath "block producer signing-time statistics (reached only through the method-name over-approximation Get/Add)"),
-  ("types/blockchain.go:MovingAverage.calculateAvg:index:<*MovingAverage>.values[<*MovingAverage>.curPos]", 1, offPath "block producer signing-time statistics (reached only through the method-name over-approximation Get/Add)"),
-  ("types/logging.go:LogPeerShort.String:slice:pretty[len(pretty)-6:]", 1, offPath "p2p log formatting"),
-  ("types/quirk.go:putTxID:mapwrite:quirkTxMap[id]", 1, ctor "the map is created by the constructor of its struct / by make in the package initialiser (newVoteResult, newVprStore, newTopVoters, newVpr, systemParams literal, initSysCmd)"),
-  ("types/raft.go:ConfChangeProgress.ToString:index:ConfChangeState_name[int32(<*ConfChangeProgress>.State)]", 1, lib "protobuf-generated enum name table: a map read"),
-  ("types/raft.go:MembershipChange.ToString:index:MembershipChangeType_name[int32(<*MembershipChange>.Type)]", 1, lib "protobuf-generated enum name table: a map read"),
-  ("types/raft.go:RaftConfChangeToString:index:raftpb.ConfChangeType_name[int32(<*raftpb.ConfChange>.Type)]", 1, lib "protobuf-generated enum name table: a map read"),
-  ("types/receipt.go:AddressPadding:index:<[]byte>[0]", 1, bounded "id := make([]byte, AddressLength) in the same function"),
-  ("types/receipt.go:AddressPadding:slice:<[]byte>[1:]", 1, bounded "id := make([]byte, AddressLength) in the same function"),
-  ("types/receipt.go:NewReceipt:slice:<[]byte>[:33]", 1, bounded "AccountState.ID() pads every id to 33 bytes"),
-  ("types/receipt.go:Receipt.marshalBody:slice:<[]byte>[:4]", 8, bounded "l := make([]byte, 8) in the same function"),
-  ("types/receipt.go:Receipt.marshalBodyV2:slice:<[]byte>[:4]", 8, bounded "l := make([]byte, 8) in the same function"),
-  ("types/rpc.go:ConfigItem.Add:index:<*ConfigItem>.Props[<string>]", 1, offPath "RPC config reply (method name Add)"),
-  ("types/vote.go:OpSysTx.ID:slice:<OpSysTx>.String()[prefixLen:]", 1, bounded "op < OpSysTxMax is tested above; every stringer name starts with Op"),
-  ("types/vote.go:initSysCmd:mapwrite:cmdToOp[i.Cmd()]", 1, ctor "the map is created by the constructor of its struct / by make in the package initialiser (newVoteResult, newVprStore, newTopVoters, newVpr, systemParams literal, initSysCmd)")
+  ("types/blockchain.go:MovingAverage.Add:div:(_.curPos + 1) % _.size", 1, offPath "block producer signing-time statistics (reached only through the method-name over-approximation Get/Add)"),
+  ("types/blockchain.go:MovingAverage.Add:index:_.values[_.curPos]", 2, offPath "block producer signing-time statistics (reached only through the method-name over-approximation Get/Add)"),
+  ("types/blockchain.go:MovingAverage.calculateAvg:div:_.sum / int64(_.count)", 1, offPath "block producer signing-time statistics (reached only through the method-name over-approximation Get/Add)"),
+  ("types/blockchain.go:MovingAverage.calculateAvg:index:_.values[_.curPos]", 1, offPath "block producer signing-time statistics (reached only through the method-name over-approximation Get/Add)"),
+  ("types/logging.go:LogPeerShort.String:slice:_[len(_)-6:]", 1, offPath "p2p log formatting"),
+  ("types/quirk.go:init:mapwrite:quirkTxMap[_]", 1, ctor "the map is created by the constructor of its struct / by make in the package initialiser (newVoteResult, newVprStore, newTopVoters, newVpr, systemParams literal, initSysCmd)"),
+  ("types/raft.go:ConfChangeProgress.ToString:index:ConfChangeState_name[int32(_.State)]", 1, lib "protobuf-generated enum name table: a map read"),
+  ("types/raft.go:MembershipChange.ToString:index:MembershipChangeType_name[int32(_.Type)]", 1, lib "protobuf-generated enum name table: a map read"),
+  ("types/raft.go:RaftConfChangeToString:index:raftpb.ConfChangeType_name[int32(_.Type)]", 1, lib "protobuf-generated enum name table: a map read"),
+  ("types/receipt.go:AddressPadding:index:_[0]", 1, bounded "id := make([]byte, AddressLength) in the same function"),
+  ("types/receipt.go:AddressPadding:slice:_[1:]", 1, bounded "id := make([]byte, AddressLength) in the same function"),
+  ("types/receipt.go:NewReceipt:slice:_[:33]", 1, bounded "AccountState.ID() pads every id to 33 bytes"),
+  ("types/receipt.go:Receipt.marshalBody:slice:_[:4]", 8, bounded "l := make([]byte, 8) in the same function"),
+  ("types/receipt.go:Receipt.marshalBodyV2:slice:_[:4]", 8, bounded "l := make([]byte, 8) in the same function"),
+  ("types/rpc.go:ConfigItem.Add:index:_.Props[_]", 1, offPath "RPC config reply (method name Add)"),
+  ("types/vote.go:OpSysTx.ID:slice:_.String()[prefixLen:]", 1, bounded "op < OpSysTxMax is tested above; every stringer name starts with Op"),
+  ("types/vote.go:initSysCmd:mapwrite:cmdToOp[_.Cmd()]", 1, ctor "the map is created by the constructor of its struct / by make in the package initialiser (newVoteResult, newVprStore, newTopVoters, newVpr, systemParams literal, initSysCmd)")
 ]
 
 open OpClass Site in
@@ -1257,15 +1254,13 @@ open OpClass Site in
 rule `lenguard`).  Kept so that every trap stays anchored to its source expression; the model still carries the
 trap and proves the guard sufficient. -/
 def guardedInSource : List (String × Nat × OpClass) := [
-  ("types/transaction.go:validateNameTx:index:<CallInfo>.Args[1]", 1, trap [tNameUpdTo]),
-  ("types/transaction.go:validateNameTx:index:<CallInfo>.Args[0]", 1, trap [tNameOwner0]),
-  ("types/transaction.go:_validateNameTx:index:<*CallInfo>.Args[0]", 1, trap [tNameCommon0]),
-  ("types/vote.go:VoteList.Less:slice:<VoteList>.Votes[<int>].Candidate[7:]", 2, trap [tLessSlice]),
-  ("contract/enterprise/validate.go:ValidateEnterpriseTx:index:<types.CallInfo>.Args[0]", 9, trap [eAdmin0, eEnable0]),
-  ("contract/enterprise/validate.go:ValidateEnterpriseTx:index:<types.CallInfo>.Args[1]", 1, trap [eEnable1]),
-  ("contract/enterprise/validate.go:checkRPCPermissions:index:values[0]", 1, trap [eRpcVals0]),
-  ("contract/enterprise/changecluster.go:ValidateChangeCluster:index:<types.CallInfo>.Args[0]", 2, trap [eCc0])
-
+  ("types/transaction.go:InitGovernance:index:_.Args[1]", 1, trap [tNameUpdTo]),
+  ("types/transaction.go:InitGovernance:index:_.Args[0]", 2, trap [tNameOwner0, tNameCommon0]),
+  ("types/vote.go:VoteList.Less:slice:_.Votes[_].Candidate[7:]", 2, trap [tLessSlice]),
+  ("contract/enterprise/validate.go:ValidateEnterpriseTx:index:_.Args[0]", 9, trap [eAdmin0, eEnable0]),
+  ("contract/enterprise/validate.go:ValidateEnterpriseTx:index:_.Args[1]", 1, trap [eEnable1]),
+  ("contract/enterprise/validate.go:ValidateEnterpriseTx:index:_[0]", 1, trap [eRpcVals0]),
+  ("contract/enterprise/changecluster.go:ValidateChangeCluster:index:_.Args[0]", 2, trap [eCc0])
 ]
 
 open Site in
@@ -1288,21 +1283,22 @@ def knownShapes : List (String × List String) := [
 `nameState`, `nameExecArgs`, `entValidate`, `entExecArgs`, `getOpSysTx`, `sysValidate` branch on exactly these. -/
 def knownDispatch : List (String × String) := [
   ("chain/chainhandle.go:executeTx:switch txBody.Type", "types.TxType_CALL types.TxType_DEPLOY types.TxType_FEEDELEGATION types.TxType_GOVERNANCE types.TxType_MULTICALL types.TxType_NORMAL types.TxType_REDEPLOY types.TxType_TRANSFER"),
+  ("consensus/impl/raftv2/cluster.go:Cluster.isEnableChangeMembership:switch cc.Type", "raftpb.ConfChangeAddNode raftpb.ConfChangeRemoveNode"),
   ("consensus/impl/raftv2/cluster.go:Cluster.makeProposal:switch req.Type", "default types.MembershipChangeType_ADD_MEMBER types.MembershipChangeType_REMOVE_MEMBER"),
   ("consensus/impl/raftv2/cluster.go:Cluster.validateChangeMembership:switch cc.Type", "default raftpb.ConfChangeAddNode raftpb.ConfChangeRemoveNode"),
   ("contract/enterprise/execute.go:ExecuteEnterpriseTx:switch context.Call.Name", "AppendAdmin AppendConf ChangeCluster EnableConf RemoveAdmin RemoveConf SetConf default"),
   ("contract/enterprise/validate.go:ValidateEnterpriseTx:switch ci.Name", "AppendAdmin AppendConf ChangeCluster EnableConf RemoveAdmin RemoveConf SetConf default"),
   ("contract/name/execute.go:ExecuteNameTx:switch ci.Name", "types.NameCreate types.NameUpdate types.SetContractOwner"),
   ("contract/name/execute.go:ValidateNameTx:switch ci.Name", "default types.NameCreate types.NameUpdate types.SetContractOwner"),
-  ("contract/system/execute.go:newSysCmd:table map[types.OpSysTx]sysCmdCtor", "types.Opstake types.Opunstake types.OpvoteBP types.OpvoteDAO"),
+  ("contract/system/execute.go:ExecuteSystemTx:table map[types.OpSysTx]sysCmdCtor", "types.Opstake types.Opunstake types.OpvoteBP types.OpvoteDAO"),
   ("contract/system/validation.go:ValidateSystemTx:switch context.op", "default types.Opstake types.Opunstake types.OpvoteBP types.OpvoteDAO"),
   ("mempool/mempool.go:MemPool.validateTx:switch string(tx.GetBody().GetRecipient())", "types.AergoEnterprise types.AergoName types.AergoSystem"),
   ("mempool/mempool.go:MemPool.validateTx:switch tx.GetBody().GetType()", "types.TxType_CALL types.TxType_DEPLOY types.TxType_FEEDELEGATION types.TxType_GOVERNANCE types.TxType_MULTICALL types.TxType_NORMAL types.TxType_REDEPLOY types.TxType_TRANSFER"),
+  ("types/transaction.go:InitGovernance:switch ci.Name", "NameCreate NameUpdate SetContractOwner default"),
   ("types/transaction.go:ValidateSystemTx:switch op", "Opstake Opunstake OpvoteBP OpvoteDAO default"),
   ("types/transaction.go:transaction.Validate:switch tx.GetBody().Type", "TxType_CALL TxType_DEPLOY TxType_FEEDELEGATION TxType_GOVERNANCE TxType_MULTICALL TxType_NORMAL TxType_REDEPLOY TxType_TRANSFER default"),
   ("types/transaction.go:transaction.ValidateWithSenderState:switch string(tx.GetBody().GetRecipient())", "AergoEnterprise AergoName AergoSystem default"),
-  ("types/transaction.go:transaction.ValidateWithSenderState:switch tx.GetBody().GetType()", "TxType_CALL TxType_DEPLOY TxType_FEEDELEGATION TxType_GOVERNANCE TxType_NORMAL TxType_REDEPLOY TxType_TRANSFER"),
-  ("types/transaction.go:validateNameTx:switch ci.Name", "NameCreate NameUpdate SetContractOwner default")
+  ("types/transaction.go:transaction.ValidateWithSenderState:switch tx.GetBody().GetType()", "TxType_CALL TxType_DEPLOY TxType_FEEDELEGATION TxType_GOVERNANCE TxType_NORMAL TxType_REDEPLOY TxType_TRANSFER")
 ]
 
 end Aergo.Admit
